@@ -410,6 +410,17 @@ func c17Queries(c *Ctx) {
 			if es2 == "" && (b.Equals(o2.B) || o2.B.Equals(b)) {
 				c.Fail("64/query/Equals/different-set", "Equals true for sets differing in %d", x)
 			}
+			if qm, what := equalCardPerturbation(r, m, 0); qm != nil && card <= 1<<22 {
+				for _, f3 := range []string{bm.Form, o.Form} {
+					if o3, es3 := build64(r, qm, f3); es3 == "" {
+						if b.Equals(o3.B) || o3.B.Equals(b) {
+							c.Fail("64/query/Equals/different-set-same-cardinality", "Equals true for different sets of equal cardinality (%s; forms %s and %s)", what, bm.Form, f3)
+						}
+						c.Count("equals64_same_cardinality")
+						c.Eval(2)
+					}
+				}
+			}
 		}
 		if card <= 1<<17 {
 			arr := b.ToArray()
